@@ -1186,7 +1186,11 @@ func runC13(e *Env) {
 		"SendManifestMultiStream/RecvManifestMultiStream transfers (next receiver / resume reconnect into the same directory / concurrent receivers; mock or loopback QUIC); " +
 		"after every use: held manifest deep-equal to a pristine copy and to the announced id, manifest read by the receiver equal to it, output tree equal to the source; " +
 		"every clean alias:* case is taken through a history as well (the received bytes are the evidence of which file the real sender read for a listed name); " +
-		"a history counts when all its uses returned nil on both endpoints; distinct by (form, transport, k, class, mode, case)"
+		"a history counts when all its uses returned nil on both endpoints; distinct by (form, transport, k, class, mode, case). " +
+		"Command-line stage (classes cli:*, c13_cli.go): the real `thru host` binary in a working directory of its own against a real thruserv, given names an argument pre-processor might interpret " +
+		"(glob metacharacters, backslash escapes, braces, ~, $VAR, list separators, surrounding white space / quotes, @file, percent escapes, leading dash, size-like tokens, equal base names in unsorted argument order) " +
+		"next to the siblings the interpretation would pick up, as file or directory, typed relative / with ./ / absolute, alone or with a partner; the manifest announced to a joining receiver (id, totals, counts, root) " +
+		"must be that of the real ScanPaths on the arguments as typed (reference child process, judged by the walk oracle too); a run counts when the announced summary was read; distinct by (class, placement, kind, case)"
 
 	var mu sync.Mutex
 	agg := map[string]*c13Agg{}
@@ -1335,11 +1339,19 @@ func runC13(e *Env) {
 		defer close(spellDone)
 		c13RunSpelled(e, work, spelled, account)
 	}()
+	// the path list as it travels through the real command line (c13_cli.go):
+	// real `thru host` processes, each with its own working directory
+	cliDone := make(chan struct{})
+	go func() {
+		defer close(cliDone)
+		c13RunCLI(e, work, account)
+	}()
 	vk.ParallelDo(len(par), 16, func(i int) { runOne(par[i], false) })
 	for _, c := range ser { // relative paths need the process working directory: one at a time
 		runOne(c, true)
 	}
 	<-spellDone
+	<-cliDone
 
 	// samples: real cases with what was observed, clean classes first
 	for _, k := range []string{"paths:dup-basename", "spell:dot", "paths:same-path-twice", "entry:fifo", "spell:sub-dotdot", "paths:path-and-subdir",
